@@ -80,6 +80,10 @@ def make_header(rng, fam, ref):
     else:
         h["crval1"], h["crval2"] = float(rng.uniform(0, 360)), float(np.degrees(np.arcsin(rng.uniform(-1, 1))))
         h["crval2"] = float(np.clip(h["crval2"], -89.9, 89.9))
+    if rng.random() < .25:
+        # the native longitude of the celestial pole given explicitly: the default, or another value (the plane turns
+        # about the reference point)
+        h["longpole"] = float(rng.choice([180.0, 0.0, 90.0, -90.0, rng.uniform(-180, 180)]))
     # far-corner distance from the reference pixel, pixels and degrees
     D = max(np.hypot(cx - h["crpix1"], cy - h["crpix2"]) for cx in (1, nx) for cy in (1, ny))
     E = D * s
